@@ -596,7 +596,7 @@ func main() {
 	// ---- sequential: many short / medium traces ----
 	nlight := 240
 	if th {
-		nlight = 3000
+		nlight = 8000
 	}
 	for i := 0; i < nlight; i++ {
 		variant := i % 3
@@ -628,7 +628,7 @@ func main() {
 		{"closed ring drained with empty answers before the advance", 1, []burst{{true, N + 1}, {false, N}, {false, 1}, {false, 2}, {true, 1}, {false, 2}}},
 	}
 	if th {
-		for r := 0; r < 10; r++ {
+		for r := 0; r < 30; r++ {
 			var bs []burst
 			for j := 0; j < rng.Range(3, 8); j++ {
 				bs = append(bs, burst{rng.Chance(6, 10), rng.Range(1, N+N/2)})
@@ -648,7 +648,7 @@ func main() {
 	var clock int64
 	nsmall := 60
 	if th {
-		nsmall = 600
+		nsmall = 2500
 	}
 	var keepForTwin [][]ev
 	twinAgree := 0
@@ -739,7 +739,7 @@ func main() {
 	// ---- concurrent: medium histories (a few thousand events), lin_b inside Coq ----
 	nmed := 3
 	if th {
-		nmed = 20
+		nmed = 40
 	}
 	for i := 0; i < nmed; i++ {
 		variant := i % 3
@@ -757,7 +757,7 @@ func main() {
 	// ---- concurrent: long segment-crossing runs: Go twin on the whole history, aspects_b on value projections ----
 	nbig := 3
 	if th {
-		nbig = 12
+		nbig = 24
 	}
 	bigEvents := 0
 	for i := 0; i < nbig; i++ {
